@@ -42,8 +42,17 @@ def make_probes(case, obs, want, shim):
             if t["k"] == "struct":
                 return set().union(*[scalars(m["ty"]) for d in S["structs"] if d["name"] == t["name"] for m in d["members"]] or [set()])
             return set()
-        # structs with members encase cannot hold at all (bool) are outside C10's domain: no probe is generated for them
-        names = [n for n in emitted if any(d["name"] == n for d in S["structs"]) and scalars({"k": "struct", "name": n}) <= set(P.SENT)]
+        def maxlen(t):
+            if t["k"] == "array":
+                return max(t["n"], maxlen(t["e"]))
+            if t["k"] == "rtarray":
+                return maxlen(t["e"])
+            if t["k"] == "struct":
+                return max([maxlen(m["ty"]) for d in S["structs"] if d["name"] == t["name"] for m in d["members"]] or [0])
+            return 0
+        # structs with members encase cannot hold at all (bool) are outside C10's domain: no probe is generated for them;
+        # neither for arrays of thousands of elements (one sentinel per component): those are judged on their field types only
+        names = [n for n in emitted if any(d["name"] == n for d in S["structs"]) and scalars({"k": "struct", "name": n}) <= set(P.SENT) and maxlen({"k": "struct", "name": n}) <= 512]
         uni = set()
         for g in S["globals"]:
             if g["space"] == "uniform" and g["ty"].get("k") == "struct":
